@@ -112,6 +112,19 @@ impl C10 {
                 g.q.push((a, *r.pick(&c)));
             }
         }
+        if matching == 0 && r.chance(1, 20) && !f.t.is_empty() {
+            // right operand: an identity on f's target type whose wires (where the labels allow) were unified afterwards --
+            // it looks like an identity and is a merging spider
+            let ty = f.forget_q().tgt_type();
+            let n = ty.len();
+            let mut id = POh::<u32, u64>::identity(ty.clone()).to_lax();
+            for i in 1..n {
+                if ty[i] == ty[i - 1] && r.chance(2, 3) {
+                    if r.chance(1, 2) { id.q.push((i - 1, i)) } else { id.q.push((i, i - 1)) }
+                }
+            }
+            return (f, id);
+        }
         match matching {
             0 => {}
             1 => {
@@ -145,6 +158,9 @@ impl C10 {
         let arity_match = f.t.len() == g.s.len();
         if !f.q.is_empty() && !g.q.is_empty() {
             ctx.class("pending_unifications_on_both_operands");
+        }
+        if g.e.is_empty() && !g.q.is_empty() && g.s == g.t && g.s.len() == g.w.len() {
+            ctx.class("identity_shaped_operand_with_unified_wires");
         }
         if arity_match && !types_match {
             ctx.class("arity_match_label_mismatch");
@@ -362,6 +378,7 @@ impl Monitor for C10 {
             ("api:append", 100),
             ("api:coproduct_assign", 100),
             ("api:lax_compose", 100),
+            ("class:identity_shaped_operand_with_unified_wires", 30),
             ("law:to_strict-is-the-model-quotient", 200),
             ("law:label-mismatch-surfaces-at-quotient", 30),
             ("class:round_trip_of_a_medium_diagram", 20),
